@@ -184,6 +184,23 @@ func check(c Case) (pbt.Info, error) {
 		script.Apply(h, d, op)
 		m.Apply(d, op)
 		where := fmt.Sprintf("after later mutation %d %s(%d,%d,%v)", i, op.O, op.X, op.Y, op.Xs)
+		// the very first Values()/Keys() after a mutation (before any other observer
+		// runs) must be a snapshot too: write to it, then look at the container
+		if i%2 == 0 {
+			first := h.Values()
+			for j := range first {
+				first[j] = poison
+			}
+			if h.Keys != nil {
+				fk := h.Keys()
+				for j := range fk {
+					fk[j] = poison
+				}
+			}
+			if err := same(h, where+", after overwriting the first Values()/Keys() taken since that mutation"); err != nil {
+				return info, err
+			}
+		}
 		if !slices.Equal(snapV[:cap(snapV)], snapVfull) {
 			return info, fmt.Errorf("%s: %s the slice returned earlier by Values() changed: %v -> %v", kind, where, snapVfull, snapV[:cap(snapV)])
 		}
@@ -307,8 +324,14 @@ func genBig(kind string) func(t *rapid.T) Case {
 		fam := all.Family(kind)
 		if fam == "list" || fam == "set" {
 			c.Init = rapid.SliceOfN(rapid.IntRange(0, n-1), 0, 90).Draw(t, "init")
+			if rapid.Bool().Draw(t, "long-init") {
+				c.Init = rapid.SliceOfN(rapid.IntRange(0, n-1), 32, 140).Draw(t, "init-long")
+			}
 		}
 		c.Ops = script.GenOpsBig(t, kind, n)
+		if rapid.IntRange(0, 3).Draw(t, "no-script") == 0 {
+			c.Ops = nil // the constructor / first variadic call meets a never-filled container
+		}
 		h := all.New[int](c.Cfg)
 		var entries []string
 		for name := range h.Variadic {
@@ -319,6 +342,9 @@ func genBig(kind string) func(t *rapid.T) Case {
 			c.Entry = entries[rapid.IntRange(0, len(entries)-1).Draw(t, "entry")]
 			c.Idx = rapid.IntRange(0, 400).Draw(t, "idx")
 			c.Vals = rapid.SliceOfN(rapid.IntRange(0, n-1), 0, 90).Draw(t, "vals")
+			if rapid.Bool().Draw(t, "long-vals") {
+				c.Vals = rapid.SliceOfN(rapid.IntRange(0, n-1), 32, 200).Draw(t, "vals-long")
+			}
 		}
 		c.Muts = script.GenOps(t, kind, n, 30)
 		c.Warm = rapid.SliceOfN(rapid.IntRange(0, 1<<12), 0, 8).Draw(t, "warm")
